@@ -18,7 +18,7 @@ done
 export GOFLAGS=-mod=mod GOPROXY=off GOSUMDB=off GOTOOLCHAIN=local
 go build ./... && go build -tags verif ./... || { echo "BUILD FAILS"; cd /; git -C /repo worktree remove --force "$W"; exit 2; }
 for p in $PROPS; do
-  out="$(cd /verif && VERIF_REPO="$W" VERIF_SEED=${VERIF_SEED:-1} ./check "$p" quick 2>&1)"
+  out="$(cd "${VERIF_HOME:-/verif}" && VERIF_REPO="$W" VERIF_SEED=${VERIF_SEED:-1} ./check "$p" quick 2>&1)"
   echo "$(basename "$D") $(echo "$out" | grep '^check ' )"
   echo "$out" | grep -E "^VIOLATION|^ *key=|^ *what=|CHECK-BROKEN|^NOTE" | cut -c1-400 | head -12
 done
